@@ -334,6 +334,12 @@ REPAIR_OUTCOME = dict(region='repair_outcome', file='cmdline/check.c', begin='/*
                       epilogue='\t} /* closes the else branch the region text opened */\n\t*error_p = error; *unrecoverable_p = unrecoverable_error;\n\t(void)esc_buffer;')
 
 
+REPAIR_FETCH = dict(region='repair_fetch', file='cmdline/check.c', scope='static int repair(struct snapraid_state* state, int rehash, unsigned pos, unsigned diskmax, struct failed_struct* failed, unsigned* failed_map, unsigned failed_count, void** buffer, void** buffer_recov, void* buffer_zero)',
+                    begin='/* but we are not interested in DELETED ones. */', end='/* if nothing to fix */', end_first_after=True, max_lines=40, expect_loops=1,
+                    proto='static void region_repair_fetch(struct snapraid_state *state, int rehash, struct failed_struct *failed, unsigned *failed_map, unsigned failed_count, void **buffer, int *n_p, int *something_p)',
+                    prologue='\tunsigned j;\n\tint n;\n\tint something_to_recover;', epilogue='\t*n_p = n; *something_p = something_to_recover;')
+
+
 PARITY_OFFER = dict(region='parity_offer', file='cmdline/check.c', scope='static int state_check_process(struct snapraid_state* state, int fix, struct snapraid_parity_handle** parity, block_off_t blockstart, block_off_t blockmax)',
                     begin='/* now read and check the parity if requested */', end='/* try all the recovering strategies */', end_first_after=True, max_lines=45, brace_balance=1,
                     proto='static void region_parity_offer(struct snapraid_state *state, struct snapraid_parity_handle **parity, block_off_t i, unsigned diskmax, unsigned buffermax, void **buffer, void **buffer_recov, void **out_recov, void **out_zero, unsigned *error_p)',
@@ -380,20 +386,24 @@ CHECK_BIE = dict(region='check_block_is_enabled', file='cmdline/check.c', begin=
 
 
 def writeback_obs():
-    return [Ob('check.block_is_enabled', 'harness/h_writeback.c', 'h_check_block_is_enabled', inject=[WRITEBACK, REPAIR_OUTCOME, DATA_VERIFY, CHECK_BIE, PARITY_OFFER], unwind=8, small_path=True, timeout=900, mem=8, cost=4, replay=False, kind='bounded', bound='3 disk slots',
+    return [Ob('check.block_is_enabled', 'harness/h_writeback.c', 'h_check_block_is_enabled', inject=[WRITEBACK, REPAIR_OUTCOME, DATA_VERIFY, CHECK_BIE, PARITY_OFFER, REPAIR_FETCH], unwind=8, small_path=True, timeout=900, mem=8, cost=4, replay=False, kind='bounded', bound='3 disk slots',
                functions=['block_is_enabled (cmdline/check.c; whole body extracted mechanically, callees routed to stubs)'],
                note='-e on blocks / files-with-errors filter / plain, 1..6 parity levels each excluded or not, per disk slot: present or not, every block state, file excluded or not; stripe bad or not'),
-            Ob('check.data_verify.region', 'harness/h_writeback.c', 'h_data_verify', inject=[WRITEBACK, REPAIR_OUTCOME, DATA_VERIFY, CHECK_BIE, PARITY_OFFER], unwind=18, small_path=True, timeout=1200, mem=8, cost=6, replay=False,
+            Ob('check.data_verify.region', 'harness/h_writeback.c', 'h_data_verify', inject=[WRITEBACK, REPAIR_OUTCOME, DATA_VERIFY, CHECK_BIE, PARITY_OFFER, REPAIR_FETCH], unwind=18, small_path=True, timeout=1200, mem=8, cost=6, replay=False,
                functions=['state_check_process: region "read from the file" .. "now read and check the parity" (cmdline/check.c, extracted mechanically)'],
                note='every read outcome, block state BLK / CHG / REP, digest and recorded hash (hash size 16), migration flag, disk slot, fill of the failed set; handle_read / memhash by stub'),
-            Ob('check.repair_outcome.region', 'harness/h_writeback.c', 'h_repair_outcome', inject=[WRITEBACK, REPAIR_OUTCOME, DATA_VERIFY, CHECK_BIE, PARITY_OFFER], unwind=12, small_path=True, timeout=1200, mem=8, cost=8, replay=False, kind='bounded',
+            Ob('check.repair_outcome.region', 'harness/h_writeback.c', 'h_repair_outcome', inject=[WRITEBACK, REPAIR_OUTCOME, DATA_VERIFY, CHECK_BIE, PARITY_OFFER, REPAIR_FETCH], unwind=12, small_path=True, timeout=1200, mem=8, cost=8, replay=False, kind='bounded',
                bound='at most 3 failed entries per stripe, 1..6 parity levels, block size 8',
                functions=['state_check_process: region "try all the recovering strategies" .. "now write recovered files" (cmdline/check.c, extracted mechanically)'],
                note='every result of repair, bad / out-of-date pattern, recomputed and on-disk parity content, readable levels, used / valid parity; repair by stub (its own units)'),
-            Ob('check.parity_offer.region', 'harness/h_writeback.c', 'h_parity_offer', inject=[WRITEBACK, REPAIR_OUTCOME, DATA_VERIFY, CHECK_BIE, PARITY_OFFER], unwind=16, small_path=True, timeout=900, mem=8, cost=4, replay=False,
+            Ob('check.parity_offer.region', 'harness/h_writeback.c', 'h_parity_offer', inject=[WRITEBACK, REPAIR_OUTCOME, DATA_VERIFY, CHECK_BIE, PARITY_OFFER, REPAIR_FETCH], unwind=16, small_path=True, timeout=900, mem=8, cost=4, replay=False,
                functions=['state_check_process: region "now read and check the parity" .. "try all the recovering strategies" (cmdline/check.c, extracted mechanically)'],
                note='1..6 levels, each open or not, each read failing or not, each pointer left by an earlier stripe zero or not; parity_read by recording stub'),
-            Ob('check.writeback.region', 'harness/h_writeback.c', 'h_writeback', inject=[WRITEBACK, REPAIR_OUTCOME, DATA_VERIFY, CHECK_BIE, PARITY_OFFER], unwind=12, small_path=True, timeout=1200, mem=8, cost=10, replay=False, kind='bounded',
+            Ob('check.repair_fetch.region', 'harness/h_writeback.c', 'h_repair_fetch', inject=[WRITEBACK, REPAIR_OUTCOME, DATA_VERIFY, CHECK_BIE, PARITY_OFFER, REPAIR_FETCH], unwind=18, small_path=True, timeout=900, mem=8, cost=4, replay=False, kind='bounded',
+               bound='at most 3 failed entries per stripe',
+               functions=['repair: region of the first strategy that fills bad blocks from the import / search indexes (cmdline/check.c, extracted mechanically)'],
+               note='every bad / state (BLK REP CHG DELETED) pattern, every outcome of both fetches, buffer slot, file position; state_import_fetch / state_search_fetch by recording stubs (their own units: import.fetch, search.fetch)'),
+            Ob('check.writeback.region', 'harness/h_writeback.c', 'h_writeback', inject=[WRITEBACK, REPAIR_OUTCOME, DATA_VERIFY, CHECK_BIE, PARITY_OFFER, REPAIR_FETCH], unwind=12, small_path=True, timeout=1200, mem=8, cost=10, replay=False, kind='bounded',
                bound='at most 3 failed entries per stripe, 1..6 parity levels',
                functions=['state_check_process: region "now write recovered files" (cmdline/check.c, extracted mechanically)'],
                note='check and fix, every bad / out-of-date / excluded / unsynced combination per entry, every disk slot and file position, every write outcome, every readability / accessibility / exclusion per parity level; handle_write / parity_write by recording stub')]
@@ -852,7 +862,7 @@ def search_obs():
 
 
 def c19(tier, seed):
-    return sync_hash_obs() + sync_prehash_obs() + import_obs() + search_obs() + scanfile_obs() + filecopy_obs()
+    return sync_hash_obs() + sync_prehash_obs() + import_obs() + search_obs() + scanfile_obs() + filecopy_obs() + [o for o in writeback_obs() if o.name == 'check.repair_fetch.region']
 
 
 def c09(tier, seed):
